@@ -368,7 +368,7 @@ Qed.
 
 Lemma enc_text_ok e st par c : ok e st (enc_text e st par c).
 Proof.
-  unfold enc_text. destruct (is_binary_tag st); [apply ok_ret; now split|].
+  unfold enc_text. destruct (is_binary_tag st par); [apply ok_ret; now split|].
   destruct (negb (in_cdata st) && e_ignore_empty e && only_ws c); [apply ok_ret; now split|].
   cbv zeta. destruct (in_cdata st).
   - destruct (cdata st); [apply ok_ret; now split|apply ok_err].
